@@ -38,7 +38,7 @@ type pipeCase struct {
 	// one of: an AST case of spec/J5Schema.tla (the whole raw case), a bundle of source files, a directory of .proto files
 	Files     map[string]string `json:"files"`
 	ProtoRoot string            `json:"proto_root"`
-	Lang      *langCase         `json:"lang"` // a J5Lang construct (printed with langFiles)
+	Lang      *langCase         `json:"lang"`  // a J5Lang construct (printed with langFiles)
 	Rules     *rlReflectCase    `json:"rules"` // a J5Rules declaration: every rule / annotation of the catalogue (printed with rlFileText)
 	Cls       string            `json:"cls"`
 	AST       json.RawMessage   `json:"ast"` // {"pkgs": [...]}: a bundle of spec/J5Schema.tla
